@@ -132,7 +132,9 @@ class Chain(BaseGridder):
                 if result is None:
                     result = [0 for i in range(len(predicted))]
                 for i, pred in enumerate(predicted):
-                    result[i] += pred
+                    # Not in-place: the first prediction may have an integer
+                    # dtype (e.g. KNeighbors with min/max on integer data)
+                    result[i] = result[i] + pred
         if len(result) == 1:
             return result[0]
         return tuple(result)
